@@ -1,8 +1,8 @@
 package main
 
 import (
-	"go/ast"
 	"fmt"
+	"go/ast"
 	"go/token"
 	"go/types"
 	"strings"
@@ -37,31 +37,26 @@ func isVRPtr(t types.Type) bool {
 }
 
 func runC02(c *Ctx) {
-	w := c.W
 	preds := c02Predicate(c)
 	c02Gating(c, preds)
 	c02Pairing(c)
 	c02Inventory(c, preds)
 	c02Custom(c)
 	c02Tables(c)
-	// the signature-processing function: the one that looks the plugin up
-	var F *ssa.Function
-	var getCall *ssa.Call
-	for _, fn := range w.FuncsOfPkg("verifier") {
-		for _, ci := range allCalls(fn) {
-			if call, ok := ci.(*ssa.Call); ok && calleeName(call) == "invoke:ngo/plugin.Manager.Get" {
-				F, getCall = fn, call
-			}
-		}
-	}
-	if F == nil {
-		c.Unk("plugin/anchor", "anchor: the verifier function that calls plugin.Manager.Get", "-", "no call of plugin.Manager.Get in package verifier")
+	// the roles of the plugin code: L looks the plugin up (it calls plugin.Manager.Get), P processes the signature (routing,
+	// plugin execution, accounting). They coincide unless the lookup was extracted into a helper (extra_c02.go).
+	ro := c02FindRoles(c)
+	if ro == nil {
 		return
 	}
-	c.SeenFn(F.String())
-	c02Plugin(c, F, getCall)
-	c02Routing(c, F, getCall)
-	c02Critical(c, F, getCall)
+	c.SeenFn(ro.P.String())
+	c.SeenFn(ro.L.String())
+	c02Plugin(c, ro) // the lookup gates, on L
+	if c02Boundary(c, ro) {
+		c02Execution(c, ro)
+		c02Routing(c, ro)
+		c02Critical(c, ro)
+	}
 	c.MinCount("gated/", 7, "gated validation results")
 	c.MinCount("pairing/", 5, "ValidationResult allocations")
 	c.MinCount("plugin/", 9, "plugin fail-closed gates")
@@ -881,8 +876,13 @@ func c02Tables(c *Ctx) {
 
 // ---- (f) plugin situations ---------------------------------------------------
 
-func c02Plugin(c *Ctx, F *ssa.Function, getCall *ssa.Call) {
+func c02Plugin(c *Ctx, ro *c02Roles) {
 	w := c.W
+	// ---- the lookup gates: decided on the graph of L, the function that calls Manager.Get. When L is a helper of the
+	// processing function P, c02Boundary establishes (separately) that P succeeds only if L did (plugin/lookup-error) and that L's
+	// success exits on the name != "" side are the executions on which P sees a plugin (plugin/lookup-results): a gate
+	// that every such exit of L passes is a gate of every success of P with a plugin named — the clause as stated on P.
+	F, getCall := ro.L, ro.getCall
 	fi := w.Info(F)
 	// the plugin name handed to Manager.Get
 	nameV := getCall.Call.Args[1]
@@ -897,17 +897,31 @@ func c02Plugin(c *Ctx, F *ssa.Function, getCall *ssa.Call) {
 	s := fi.summarizeFrom(Mode{Kind: mErr}, entryState(), unnamed)
 	c.Evals += s.States
 	getD := desc(getCall)
+	// GetMetadata is found by dataflow (an invoke of that method on the object Manager.Get returned), not by the static
+	// interface type of the variable the object is kept in: `p, err := mgr.Get()` (plugin.Plugin) and
+	// `var p VerifyPlugin; p, err = mgr.Get()` dispatch to the same method of the same dynamic value
+	var mdErr, mdSemver, mdMin [][]string
+	for _, md := range ro.mdCalls {
+		mdD := desc(md)
+		mdErr = append(mdErr, []string{"EQ(" + mdD + "#err,nil)"})
+		mdSemver = append(mdSemver, []string{"T(call:ngo/internal/semver.IsValid(" + mdD + "#0.Version))"})
+		// Compare answers -1, 0 or +1: `!= -1`, `>= 0` and `> -1` are the same test
+		mdMin = append(mdMin,
+			[]string{`NE(call:xsemver.Compare((const:"v" + ` + mdD + `#0.Version),(const:"v" + `, `),const:-1)`},
+			[]string{`GE(call:xsemver.Compare((const:"v" + ` + mdD + `#0.Version),(const:"v" + `, `),const:0)`},
+			[]string{`GT(call:xsemver.Compare((const:"v" + ` + mdD + `#0.Version),(const:"v" + `, `),const:-1)`})
+	}
+	if len(ro.mdCalls) == 0 {
+		// no such call: the three needs cannot be met (an impossible label keeps them failing, with the facts that do hold)
+		mdErr = [][]string{{"\x00no GetMetadata call on the object returned by Manager.Get"}}
+		mdSemver, mdMin = mdErr, mdErr
+	}
 	needs := []Need{
 		{Name: "manager-nil", What: "the plugin manager is non-nil", Subs: []string{"NE(" + desc(getCall.Call.Value) + ",nil)"}},
 		{Name: "get-error", What: "Manager.Get(name) err == nil", Subs: []string{"EQ(" + getD + "#err,nil)"}},
-		{Name: "metadata-error", What: "plugin.GetMetadata err == nil", Subs: []string{"EQ(call:invoke:pfw/plugin.VerifyPlugin.GetMetadata(call:invoke:ngo/plugin.Manager.Get(", "#err,nil)"}},
-		{Name: "version-semver", What: "the plugin version is valid semver", Subs: []string{"T(call:ngo/internal/semver.IsValid(call:invoke:pfw/plugin.VerifyPlugin.GetMetadata(", "#0.Version))"}},
-		{Name: "min-version", What: "semver.Compare(\"v\"+pluginVersion, \"v\"+minVersion) != -1 (plugin version first)",
-			// Compare answers -1, 0 or +1: `!= -1`, `>= 0` and `> -1` are the same test
-			Alt: [][]string{
-				{`NE(call:xsemver.Compare((const:"v" + call:invoke:pfw/plugin.VerifyPlugin.GetMetadata(`, `#0.Version),(const:"v" + `, `),const:-1)`},
-				{`GE(call:xsemver.Compare((const:"v" + call:invoke:pfw/plugin.VerifyPlugin.GetMetadata(`, `#0.Version),(const:"v" + `, `),const:0)`},
-				{`GT(call:xsemver.Compare((const:"v" + call:invoke:pfw/plugin.VerifyPlugin.GetMetadata(`, `#0.Version),(const:"v" + `, `),const:-1)`}}},
+		{Name: "metadata-error", What: "plugin.GetMetadata err == nil", Alt: mdErr},
+		{Name: "version-semver", What: "the plugin version is valid semver", Alt: mdSemver},
+		{Name: "min-version", What: "semver.Compare(\"v\"+pluginVersion, \"v\"+minVersion) != -1 (plugin version first)", Alt: mdMin},
 		{Name: "min-version-attr", What: "the minimum version attribute is absent or well-formed (error other than not-exist is fail-closed)",
 			Alt: [][]string{{"EQ(", "MinVersion", "#err,global:ngo/verifier.errExtendedAttributeNotExist)"}, {"EQ(", "MinVersion", "#err,nil)"}}},
 	}
@@ -984,11 +998,17 @@ func c02Plugin(c *Ctx, F *ssa.Function, getCall *ssa.Call) {
 		}
 		c.Check(ok, "plugin/no-capability", rule, w.FnPos(F), "a plugin without verification capabilities does not fail verification")
 	}
-	// the plugin execution: error fail-closed; verdicts
+}
+
+// c02Execution: the plugin execution in the processing function P: error fail-closed; verdicts.
+func c02Execution(c *Ctx, ro *c02Roles) {
+	w := c.W
+	F := ro.P
+	fi := w.Info(F)
 	var exec *ssa.Call
 	for _, f := range w.moduleCallees(F) {
 		for _, ci := range allCalls(f) {
-			if call, ok := ci.(*ssa.Call); ok && calleeName(call) == "invoke:pfw/plugin.VerifyPlugin.VerifySignature" {
+			if call, ok := ci.(*ssa.Call); ok && calleeName(call) == c02VerifyName {
 				exec = call
 			}
 		}
@@ -1053,22 +1073,37 @@ func mentionsConst(w *World, fn *ssa.Function, s string) bool {
 // c02Verdicts: the function that consumes the plugin response.
 func c02Verdicts(c *Ctx, F *ssa.Function, execInF *ssa.Call) {
 	w := c.W
-	// the response value: result 0 of the execution; find the module function receiving it (or F itself)
+	// the response value: result 0 of the execution; find the module function receiving it (or F itself). The hand-over may
+	// happen in F or in a helper on F's tree that wraps execution and response processing: wherever a call that leads to the
+	// plugin execution has its result 0 passed to a module function, that function consumes the response.
 	var R *ssa.Function
 	var respD string
-	for _, ci := range allCalls(F) {
-		call, ok := ci.(*ssa.Call)
-		if !ok {
-			continue
+	for _, f := range w.moduleCallees(F) {
+		if R != nil {
+			break
 		}
-		g := staticCallee(call)
-		if g == nil || !w.IsProductFn(g) {
-			continue
-		}
-		for i, a := range call.Call.Args {
-			if e, ok := a.(*ssa.Extract); ok && e.Tuple == execInF && e.Index == 0 {
-				R = g
-				respD = "param:" + g.Params[i].Name()
+		for _, ci := range allCalls(f) {
+			call, ok := ci.(*ssa.Call)
+			if !ok {
+				continue
+			}
+			g := staticCallee(call)
+			if g == nil || !w.IsProductFn(g) || len(call.Call.Args) != len(g.Params) {
+				continue
+			}
+			for i, a := range call.Call.Args {
+				e, ok := a.(*ssa.Extract)
+				if !ok || e.Index != 0 {
+					continue
+				}
+				xc, ok := e.Tuple.(*ssa.Call)
+				if !ok {
+					continue
+				}
+				if xc == execInF || calleeName(xc) == c02VerifyName || (staticCallee(xc) != nil && c02ReachesExec(w, staticCallee(xc))) {
+					R = g
+					respD = "param:" + g.Params[i].Name()
+				}
 			}
 		}
 	}
@@ -1189,8 +1224,9 @@ func c02Verdicts(c *Ctx, F *ssa.Function, execInF *ssa.Call) {
 
 // ---- (g) routing -------------------------------------------------------------
 
-func c02Routing(c *Ctx, F *ssa.Function, getCall *ssa.Call) {
+func c02Routing(c *Ctx, ro *c02Roles) {
 	w := c.W
+	F := ro.P // routing is decided by the processing function
 	fi := w.Info(F)
 	ti, _ := w.depConstString("github.com/notaryproject/notation-plugin-framework-go/plugin", "CapabilityTrustedIdentityVerifier")
 	rv, _ := w.depConstString("github.com/notaryproject/notation-plugin-framework-go/plugin", "CapabilityRevocationCheckVerifier")
@@ -1227,6 +1263,48 @@ func c02Routing(c *Ctx, F *ssa.Function, getCall *ssa.Call) {
 			revCall = call
 		}
 	}
+	// A native check may be written as a "stage" helper of F (the check, the store of its error into the result, the gate):
+	// the anchor is then the call of the stage in F, the check itself is the inner call (c02StageCall states what makes
+	// the stage stand for the check)
+	var idInner *ssa.Call
+	if idCall == nil || revCall == nil {
+		for _, f := range w.moduleCallees(F) {
+			if f == F || f.Parent() != nil {
+				continue
+			}
+			fti := w.paramFedBy(f, ".TrustedIdentities")
+			for _, ci := range allCalls(f) {
+				call, ok := ci.(*ssa.Call)
+				if !ok {
+					continue
+				}
+				g := staticCallee(call)
+				if g == nil || !w.IsProductFn(g) {
+					continue
+				}
+				hasTI, hasChain := false, false
+				for _, a := range call.Call.Args {
+					d := desc(a)
+					if d == fti {
+						hasTI = true
+					}
+					if strings.HasSuffix(d, ".SignerInfo.CertificateChain") {
+						hasChain = true
+					}
+				}
+				if idCall == nil && hasTI && hasChain && isErrorType(call.Type()) {
+					if site := c02StageCall(ro, call); site != nil {
+						idCall, idInner = site, call
+					}
+				}
+				if revCall == nil && g.Signature.Results().Len() == 1 && isVRPtr(g.Signature.Results().At(0).Type()) && allocatesType(w, g, fmt.Sprintf("%q", tr)) {
+					if site := c02StageCall(ro, call); site != nil {
+						revCall = site
+					}
+				}
+			}
+		}
+	}
 	containsEdge := func(capConst string, want bool) EdgeSel {
 		return func(l string, iff *ssa.If, truth bool) bool {
 			pre := "F("
@@ -1255,12 +1333,19 @@ func c02Routing(c *Ctx, F *ssa.Function, getCall *ssa.Call) {
 				fmt.Sprintf("guarded-by-capability=%v; a success path that skips the native check without the plugin owning it exists=%v", guarded, path != nil), path...)
 			// its failure sets the authenticity result's Error (then gated by rule b)
 			errD := descTailErr(idCall)
+			sf, sfi := F, fi
+			if idInner != nil {
+				// the check is made inside the stage helper: so is the store of its error
+				errD = descTailErr(idInner)
+				sf = idInner.Parent()
+				sfi = w.Info(sf)
+			}
 			okStore := false
-			for _, b := range F.Blocks {
+			for _, b := range sf.Blocks {
 				for _, in := range b.Instrs {
 					if st, ok := in.(*ssa.Store); ok {
 						if fa, ok := st.Addr.(*ssa.FieldAddr); ok && isVRPtr(fa.X.Type()) && fieldName(fa.X.Type(), fa.Field) == "Error" && desc(st.Val) == errD {
-							gg := fi.GuardsOf(st)
+							gg := sfi.GuardsOf(st)
 							if labelHas(gg, "NE("+errD+",nil)") {
 								okStore = true
 							}
@@ -1306,70 +1391,78 @@ func c02Routing(c *Ctx, F *ssa.Function, getCall *ssa.Call) {
 			}
 		}
 	}
-	// appends of capabilities
-	type app struct {
-		call *ssa.Call
-		elem ssa.Value
-	}
-	var apps []app
-	for _, ci := range allCalls(F) {
-		call, ok := ci.(*ssa.Call)
-		if !ok {
-			continue
-		}
-		if bi, ok := call.Call.Value.(*ssa.Builtin); ok && bi.Name() == "append" && len(call.Call.Args) == 2 {
-			if abbrev(types.TypeString(call.Type(), nil)) == "[]pfw/plugin.Capability" {
-				for _, el := range appendedElems(call.Call.Args[1]) {
-					apps = append(apps, app{call, el})
-				}
-			}
-		}
-	}
+	// The two capability lists are followed on SSA values across helper boundaries (c02Leaves): the list a helper hands
+	// back is what its success exits return, the list a helper ranges over is the argument of its call site. Where the code
+	// that builds a list lives (P, the lookup helper, a filter helper) does not matter; what every value the list can be was
+	// built from does.
 	{
 		rule := "routing: the plugin's capability list tested by the routing is built from metadata.Capabilities of the plugin that was looked up, keeping only the two verification capabilities"
-		ok := false
-		for _, a := range apps {
-			if capsDeclared != nil && fwdPhis(a.call)[capsDeclared] || a.call == capsDeclared {
-				d := desc(a.elem)
-				if strings.Contains(d, "GetMetadata(") && strings.Contains(d, ".Capabilities[") {
-					gg, ok2 := fi.mustPassBetween([]int{0}, blocksOf(a.call))
-					_ = gg
-					// disjunction: elem == REVOCATION or elem == TRUSTED_IDENTITY
-					cut := fi.edgesMatching(func(l string, _ *ssa.If, _ bool) bool {
-						return l == "EQ("+d+fmt.Sprintf(",const:%q)", rv) || l == "EQ("+d+fmt.Sprintf(",const:%q)", ti)
-					})
-					if ok2 && len(cut) == 2 && !fi.reachHit(entryState(), cut, blocksOf(a.call)) {
-						ok = true
-					}
-				}
-			}
-		}
+		lst := &c02Lists{ro: ro, rv: rv, ti: ti, seen: map[*ssa.Call]bool{}}
+		ok := capsDeclared != nil && lst.declared(capsDeclared) && lst.nApp > 0
 		c.Evals++
-		c.Check(ok, "routing/declared-capabilities", rule, w.FnPos(F), "the capability list used for routing is not the filtered metadata.Capabilities of the installed plugin")
+		detail := "the capability list used for routing is not the filtered metadata.Capabilities of the installed plugin"
+		if lst.why != "" {
+			detail += ": " + lst.why
+		}
+		c.Check(ok, "routing/declared-capabilities", rule, w.FnPos(F), detail)
 	}
 	// the request list: omits revocation under skip
 	{
 		rule := "routing: a capability is put on the plugin request only if it is not (revocation while the level skips revocation)"
-		var reqApp *app
-		for i := range apps {
-			a := &apps[i]
-			if capsDeclared != nil && (fwdPhis(a.call)[capsDeclared] || a.call == capsDeclared) {
+		// the request: the capability list handed to the plugin execution
+		var reqV ssa.Value
+		for _, ci := range allCalls(F) {
+			call, ok := ci.(*ssa.Call)
+			if !ok {
 				continue
 			}
-			reqApp = a
+			g := staticCallee(call)
+			if g == nil || !c02ReachesExec(w, g) {
+				continue
+			}
+			for _, a := range call.Call.Args {
+				if c02IsCapsType(a.Type()) {
+					reqV = a
+				}
+			}
 		}
-		if reqApp == nil {
-			c.Unk("routing/request-omits-skipped-revocation", rule, w.FnPos(F), "the construction of the plugin request capability list was not recognised")
+		lst := &c02Lists{ro: ro, rv: rv, ti: ti, seen: map[*ssa.Call]bool{}}
+		var reqApps []*ssa.Call
+		if reqV == nil || !lst.requestAppends(reqV, &reqApps) || len(reqApps) == 0 {
+			c.Unk("routing/request-omits-skipped-revocation", rule, w.FnPos(F), "the construction of the plugin request capability list was not recognised "+lst.why)
 		} else {
-			d := desc(reqApp.elem)
-			cut := fi.edgesMatching(func(l string, _ *ssa.If, _ bool) bool {
-				return (strings.HasPrefix(l, "NE(") && strings.HasSuffix(l, skipRev)) || l == "NE("+d+fmt.Sprintf(",const:%q)", rv)
-			})
-			hit := fi.reachHit(entryState(), cut, blocksOf(reqApp.call))
-			c.Evals++
-			c.Check(len(cut) >= 2 && !hit, "routing/request-omits-skipped-revocation", rule, w.InstrPos(reqApp.call), "the revocation capability can be sent to the plugin although the level skips revocation")
-			// the request list is built from the declared list
-			c.Check(capsDeclared != nil && strings.Contains(d, "[") && elemOf(reqApp.elem, capsDeclared), "routing/request-from-declared", "provenance: the request list is a subset of the declared verification capabilities", w.InstrPos(reqApp.call), "request elements come from "+d)
+			okGate, okFrom := true, true
+			site, from := w.InstrPos(reqApps[0]), ""
+			for _, a := range reqApps {
+				f := a.Parent()
+				ffi := w.Info(f)
+				elems := appendedElems(a.Call.Args[1])
+				if len(elems) == 0 {
+					okGate, okFrom = false, false
+					site = w.InstrPos(a)
+					continue
+				}
+				for _, el := range elems {
+					d := desc(el)
+					// the level's revocation action is spelled in P's frame (a helper reads it from the level it was handed)
+					cut := ffi.edgesMatching(ro.lift(f, func(l string, _ *ssa.If, _ bool) bool {
+						return (strings.HasPrefix(l, "NE(") && strings.HasSuffix(l, skipRev)) || l == "NE("+ro.fr.str(f, d)+fmt.Sprintf(",const:%q)", rv)
+					}))
+					c.Evals++
+					if len(cut) < 2 || ffi.reachHit(entryState(), cut, blocksOf(a)) {
+						okGate = false
+						site = w.InstrPos(a)
+					}
+					// the request list is built from the declared list
+					base := c02ElemBase(el)
+					if !(capsDeclared != nil && base != nil && (elemOf(el, capsDeclared) || c02SubsetOf(w, base, capsDeclared))) {
+						okFrom = false
+						from = d
+					}
+				}
+			}
+			c.Check(okGate, "routing/request-omits-skipped-revocation", rule, site, "the revocation capability can be sent to the plugin although the level skips revocation")
+			c.Check(okFrom, "routing/request-from-declared", "provenance: the request list is a subset of the declared verification capabilities", site, "request elements come from "+from)
 		}
 	}
 	// executed iff non-empty
@@ -1384,7 +1477,7 @@ func c02Routing(c *Ctx, F *ssa.Function, getCall *ssa.Call) {
 			if calleeName(call) == "invoke:pfw/plugin.VerifyPlugin.VerifySignature" {
 				exec = call
 			}
-			if g := staticCallee(call); g != nil && w.IsProductFn(g) && len(findCallsDeep(g, "invoke:pfw/plugin.VerifyPlugin.VerifySignature")) > 0 {
+			if g := staticCallee(call); g != nil && c02ReachesExec(w, g) {
 				exec = call
 			}
 		}
@@ -1447,31 +1540,27 @@ func allocatesType(w *World, g *ssa.Function, konst string) bool {
 
 // ---- (h) critical attributes -------------------------------------------------
 
-func c02Critical(c *Ctx, F *ssa.Function, getCall *ssa.Call) {
+func c02Critical(c *Ctx, ro *c02Roles) {
 	w := c.W
+	F := ro.P
 	fi := w.Info(F)
-	nameD := desc(getCall.Call.Args[1])
-	named := fi.edgesMatching(func(l string, _ *ssa.If, _ bool) bool { return l == "NE("+nameD+`,const:"")` })
-	unnamed := fi.edgesMatching(func(l string, _ *ssa.If, _ bool) bool { return l == "EQ("+nameD+`,const:"")` })
-	// accounting loops in F: loops over ...ExtendedAttributes with a fail-closed Critical gate per iteration
-	acct := map[int]bool{} // header blocks of accounting loops, and blocks calling accounting functions
-	for _, sl := range sliceLoops(F) {
-		if !strings.HasSuffix(desc(sl.X), ".SignedAttributes.ExtendedAttributes") {
-			continue
-		}
-		labels, ok := fi.mustPassBetween([]int{sl.Body.Index}, map[int]bool{sl.Header.Index: true})
-		if !ok {
-			continue
-		}
-		if _, h := hasLabel(labels, "F(", ".ExtendedAttributes[", ".Critical)"); h {
-			// no success from inside the body without the gate
-			cut := fi.edgesMatching(func(l string, _ *ssa.If, _ bool) bool {
-				return strings.HasPrefix(l, "F(") && strings.Contains(l, ".ExtendedAttributes[") && strings.HasSuffix(l, ".Critical)")
-			})
-			if fi.successWitness(Mode{Kind: mErr}, []state{{sl.Body.Index, 0, -1}}, cut) == nil {
-				acct[sl.Header.Index] = true
-			}
-		}
+	// "a plugin is named" on P's graph: the name test itself, or — when the lookup is a helper — the tests of what the helper
+	// hands back (c02Boundary)
+	named, unnamed := ro.named, ro.unnamed
+	// accounting in F: loops over ...ExtendedAttributes with a fail-closed Critical gate per iteration (header blocks) …
+	acct := map[int]bool{}
+	for _, sl := range c02AccountingLoops(ro, F) {
+		acct[sl.Header.Index] = true
+	}
+	// … and calls of a helper all of whose success exits lie behind such a loop over the same signer info: behind the call P
+	// is accounted for iff it requires the helper's error to be nil, so the call's `err == nil` edges are cut and an exit that
+	// returns the helper's error is not a success of its own (a path that drops the error stays open and is reported)
+	acctCalls := c02AccountingCalls(ro)
+	witness := func(cut map[edgeKey]bool) []string {
+		saved := fi.ignoreTail
+		fi.ignoreTail = c02CutAccounting(ro, fi, acctCalls, cut)
+		defer func() { fi.ignoreTail = saved }()
+		return fi.successWitness(Mode{Kind: mErr}, entryState(), cut)
 	}
 	// h1: no plugin named
 	{
@@ -1486,7 +1575,7 @@ func c02Critical(c *Ctx, F *ssa.Function, getCall *ssa.Call) {
 		c.Evals++
 		if len(named) == 0 {
 			c.Unk("critical-attr-accounting/no-plugin-named", rule, w.FnPos(F), "precondition edge not found")
-		} else if path := fi.successWitness(Mode{Kind: mErr}, entryState(), cut); path != nil {
+		} else if path := witness(cut); path != nil {
 			c.Bad("critical-attr-accounting/no-plugin-named", rule, w.FnPos(F), "a signature that names no plugin but carries a critical extended attribute is accepted: nothing accounts for the attribute on this path", path...)
 		} else {
 			c.OK("critical-attr-accounting/no-plugin-named", rule, w.FnPos(F))
@@ -1539,7 +1628,7 @@ func c02Critical(c *Ctx, F *ssa.Function, getCall *ssa.Call) {
 				continue
 			}
 			isExec := calleeName(call) == "invoke:pfw/plugin.VerifyPlugin.VerifySignature"
-			if g := staticCallee(call); g != nil && w.IsProductFn(g) && len(findCallsDeep(g, "invoke:pfw/plugin.VerifyPlugin.VerifySignature")) > 0 {
+			if g := staticCallee(call); g != nil && c02ReachesExec(w, g) {
 				isExec = true
 			}
 			if isExec {
@@ -1550,7 +1639,7 @@ func c02Critical(c *Ctx, F *ssa.Function, getCall *ssa.Call) {
 			cutInto(fi, F.Blocks[h], cut)
 		}
 		c.Evals++
-		if path := fi.successWitness(Mode{Kind: mErr}, entryState(), cut); path != nil {
+		if path := witness(cut); path != nil {
 			c.Bad("critical-attr-accounting/plugin-named-not-executed", rule, w.FnPos(F), "with a plugin named but not executed (every capability it declares is skipped by policy) the signature is accepted and its critical extended attributes were processed by nothing", path...)
 		} else {
 			c.OK("critical-attr-accounting/plugin-named-not-executed", rule, w.FnPos(F))
